@@ -39,7 +39,7 @@ LEVEL_TEXT = ("Complete for all command lines up to 6 (8) characters over the si
 LEVEL_NOTE = ("Trusts the 15-line reference quoter and the classification of "
               "backslash runs (before a quote character or not) used by the "
               "conservation law.")
-REGISTERED = False
+REGISTERED = True
 NONTRIVIAL_FLOOR = {"quick": 5000, "thorough": 100000}
 
 BS = "\\"
